@@ -112,7 +112,7 @@ def shrink(bindir, spec, tape_seed, what):
     best_what = what
     progress = True
     rounds = 0
-    while progress and rounds < 12:
+    while progress and rounds < 80:
         progress = False
         rounds += 1
         cands = []
@@ -149,7 +149,7 @@ def run(rep, tier, seed):
     bindir = common.build_harness(["recipe"])
     audit = common.audit_property_file(PID)
 
-    n_struct = 3000 if quick else 40000
+    n_struct = 3000 if quick else 30000
     k_tapes = 4 if quick else 8
     n_legacy = 1000 if quick else 20000
 
